@@ -393,8 +393,9 @@ def run_shard(spec):
     tmp = os.path.join(os.environ.get("TMPDIR", "/tmp"), "c09db")
     os.makedirs(tmp, exist_ok=True)
     db = os.path.join(tmp, "pages.db")
+    import wikitextprocessor  # noqa: F401  (imported, but no context has ever been created in this process)
+    base = BaselineServer(db)        # forked BEFORE any context at all exists in this process
     make_db(db)
-    base = BaselineServer(db)        # forked BEFORE any foreign-option context exists in this process
     foreign_contexts(obs)
     pages = corpus(random.Random(12345))
     by_kind = {}
@@ -453,8 +454,9 @@ def replay(case):
     tmp = os.path.join(os.environ.get("TMPDIR", "/tmp"), "c09db_replay_%d" % os.getpid())
     os.makedirs(tmp, exist_ok=True)
     db = os.path.join(tmp, "pages.db")
-    make_db(db)
+    import wikitextprocessor  # noqa: F401
     base = BaselineServer(db)
+    make_db(db)
     foreign_contexts(obs)
     hist = [(p, op) for p, op in case["history"]]
     bad = run_history(db, hist, base, obs, record=False, cfg=case.get("cfg", "default"))
